@@ -636,4 +636,154 @@ theorem centerV_mapV_node (t : RT) (k : Kind) (a : Rat) (ch : List VEnt) (hcov :
       simp [List.filterMap_cons, hv]
     · simp [hall] at hc
 
+/-! ### edges on curves and sketches -/
+
+theorem rowsFor_oncurve : rowsFor .oncurve = [⟨"OnCurve", [.oncurve], [one "curve" .curve]⟩] := by rfl
+theorem rowsFor_spline : rowsFor .spline = [⟨"Spline", [.spline], [one "curve" .curve]⟩] := by rfl
+
+def sketchRow : Row := ⟨"Sketch", [.grid, .firstpt, .face0, .sketchavg, .other], [many "faces" .face 1]⟩
+theorem rowsFor_grid : rowsFor .grid = [sketchRow] := by rfl
+theorem rowsFor_firstpt : rowsFor .firstpt = [sketchRow] := by rfl
+theorem rowsFor_face0 : rowsFor .face0 = [sketchRow] := by rfl
+theorem rowsFor_sketchavg : rowsFor .sketchavg = [sketchRow] := by rfl
+
+def sketchKind : Kind → Bool
+  | .grid | .firstpt | .face0 | .sketchavg => true
+  | _ => false
+
+theorem wfNode_sketch (k : Kind) (hk : sketchKind k = true) (ch : List VEnt) (h : wfNode k ch = true) :
+    (∀ e ∈ ch, ∃ a c, e = .node .face a c) ∧ ch ≠ [] := by
+  have hrow : rowsFor k = [sketchRow] := by
+    cases k <;> simp only [sketchKind] at hk <;> first | rfl | exact absurd hk (by decide)
+  have hko : (k == Kind.other) = false := by
+    cases k <;> simp only [sketchKind] at hk <;> first | rfl | exact absurd hk (by decide)
+  simp only [wfNode, hrow, hko, Bool.false_or, List.any_cons, List.any_nil, Bool.or_false, sketchRow] at h
+  obtain ⟨h1, h2⟩ := matchSlots_many_last _ _ _ _ h
+  exact ⟨fun e he => admits_face e (h1 e he), by intro hn; rw [hn] at h2; simp at h2⟩
+
+theorem wfNode_curveEdge (k : Kind) (hk : k = .oncurve ∨ k = .spline) (ch : List VEnt) (h : wfNode k ch = true) :
+    ∃ c, ch = [c] ∧ Cls.admits .curve c = true := by
+  have h : matchSlots [one "curve" .curve] ch = true := by
+    rcases hk with rfl | rfl
+    · simpa [wfNode, rowsFor_oncurve] using h
+    · simpa [wfNode, rowsFor_spline] using h
+  match ch, h with
+  | [], h => rw [matchSlots_one_nil] at h; simp at h
+  | [c], h =>
+      rw [matchSlots_one] at h
+      simp only [Bool.and_eq_true] at h
+      exact ⟨c, rfl, h.1⟩
+  | _ :: _ :: _, h =>
+      rw [matchSlots_one] at h
+      simp [matchSlots] at h
+
+/-- kinds of the second group: edges on curves, sketches -/
+def coveredKind2 : Kind → Bool
+  | .spline | .oncurve | .grid | .firstpt | .face0 | .sketchavg => true
+  | _ => false
+
+theorem centerV_mapV_node2 (t : RT) (k : Kind) (a : Rat) (ch : List VEnt) (hcov : coveredKind2 k = true)
+    (hwf : wfV (.node k a ch) = true) (c : V3) (hc : centerV none (.node k a ch) = some c) :
+    centerV none (mapV t (.node k a ch)) = some (t.pt c) := by
+  have hwf' := hwf
+  simp only [wfV, Bool.and_eq_true] at hwf'
+  obtain ⟨hn, hl⟩ := hwf'
+  have hkop : k ≠ .op := by intro h; subst h; simp [coveredKind2] at hcov
+  rw [mapV_node t k a ch hkop]
+  by_cases hedge : k = .oncurve ∨ k = .spline
+  · -- the centre of the curve the edge holds
+    obtain ⟨cv, hch, hadm⟩ := wfNode_curveEdge k hedge ch hn
+    subst hch
+    have hcw : wfV cv = true := by simpa [wfVL] using hl
+    cases cv with
+    | node kc ac cc =>
+        have hE : ∀ (a' : Rat) (x : VEnt), centerV none (.node k a' [x]) = curveCenterV none x := by
+          intro a' x
+          rcases hedge with rfl | rfl <;> simp [centerV, ruleOf, CRule.isCurveOf]
+        rw [hE] at hc
+        simp only [List.map]
+        rw [hE]
+        simp only [Cls.admits, Bool.or_eq_true, beq_iff_eq] at hadm
+        have hflat : ∀ (a' : Rat) (cc' : List VEnt), curveCenterV none (.node kc a' cc') = centerV none (.node kc a' cc') := by
+          intro a' cc'
+          rcases hadm with ((rfl | rfl) | rfl) | rfl <;> simp [curveCenterV, centerV, ruleOf, CRule.isCurveOf]
+        have hkc : kc ≠ .op := by
+          rcases hadm with ((rfl | rfl) | rfl) | rfl <;> decide
+        rw [hflat] at hc
+        by_cases hic : kc = .icurve
+        · subst hic
+          simp [centerV, ruleOf, CRule.isCurveOf, CRule.eval] at hc
+        · have hcovc : coveredKind kc = true := by
+            rcases hadm with ((rfl | rfl) | rfl) | rfl <;> first | rfl | exact absurd rfl hic
+          have := centerV_mapV_node t kc ac cc hcovc hcw c hc
+          rw [mapV_node t kc ac cc hkc] at this ⊢
+          rw [hflat]
+          exact this
+    | pt v => simp [Cls.admits] at hadm
+    | dir v => simp [Cls.admits] at hadm
+    | arr vs => simp [Cls.admits] at hadm
+  · -- sketches
+    have hsk : sketchKind k = true := by
+      cases k <;> simp only [coveredKind2] at hcov <;>
+        first | rfl | exact absurd hcov (by decide) | exact absurd (Or.inl rfl) hedge | exact absurd (Or.inr rfl) hedge
+    obtain ⟨hfaces, hne⟩ := wfNode_sketch k hsk ch hn
+    have hfp : ∀ f ∈ ch, facePtsV (mapV t f) = (facePtsV f).map t.pt := by
+      intro f hf
+      obtain ⟨af, cf, rfl⟩ := hfaces f hf
+      exact facePtsV_mapV t _ (by simp [kindOfV])
+    have hfne : ∀ f ∈ ch, facePtsV f ≠ [] := by
+      intro f hf
+      obtain ⟨af, cf, rfl⟩ := hfaces f hf
+      have := wfVL_mem ch _ hl hf
+      simp only [wfV, Bool.and_eq_true] at this
+      exact facePtsV_ne_nil af cf this.1
+    have hfc : ∀ f ∈ ch, faceCenterV (mapV t f) = t.pt (faceCenterV f) := by
+      intro f hf
+      simp only [faceCenterV, hfp f hf]
+      exact (RT.pt_avg t _ (hfne f hf)).symm
+    obtain ⟨f0, rest, hch⟩ := List.exists_cons_of_ne_nil hne
+    cases k <;> simp only [sketchKind] at hsk <;> try (exact absurd hsk (by decide))
+    · -- grid
+      simp only [centerV, ruleOf, CRule.eval, childrenV, CRule.isCurveOf, Bool.false_eq_true, if_false,
+        List.head?_map, List.getLast?_map] at hc ⊢
+      cases hh : ch.head? with
+      | none => simp [hh] at hc
+      | some g0 =>
+        cases hg : ch.getLast? with
+        | none => simp [hh, hg] at hc
+        | some gl =>
+          have m0 : g0 ∈ ch := List.mem_of_mem_head? hh
+          have ml : gl ∈ ch := List.mem_of_getLast? hg
+          simp only [hh, hg, Option.map_some, hfp g0 m0, hfp gl ml, List.head?_map, List.getElem?_map] at hc ⊢
+          cases h1 : (facePtsV g0).head? with
+          | none => simp [h1] at hc
+          | some p =>
+            cases h2 : (facePtsV gl)[2]? with
+            | none => simp [h1, h2] at hc
+            | some q =>
+              simp only [h1, h2, Option.map_some, Option.some.injEq] at hc ⊢
+              subst hc
+              exact RT.pt_mid t p q
+    · -- firstpt
+      subst hch
+      simp only [centerV, ruleOf, CRule.eval, childrenV, CRule.isCurveOf, Bool.false_eq_true, if_false,
+        List.map_cons, List.head?_cons, Option.bind_some, hfp f0 (by simp), List.head?_map] at hc ⊢
+      rw [hc]
+      rfl
+    · -- face0
+      subst hch
+      simp only [centerV, ruleOf, CRule.eval, childrenV, CRule.isCurveOf, Bool.false_eq_true, if_false,
+        List.map_cons, List.head?_cons, Option.map_some, Option.some.injEq] at hc ⊢
+      subst hc
+      exact hfc f0 (by simp)
+    · -- sketchavg
+      simp only [centerV, ruleOf, CRule.eval, childrenV, CRule.isCurveOf, Bool.false_eq_true, if_false,
+        Option.some.injEq, List.map_map] at hc ⊢
+      subst hc
+      rw [RT.pt_avg t _ (by simpa using hne), List.map_map]
+      congr 1
+      apply List.map_congr_left
+      intro f hf
+      exact hfc f hf
+
 end CBV.C09
